@@ -53,6 +53,13 @@ impl TopicName {
             .strip_prefix(TOPIC_PREFIX)
             .map(|s| s.trim_matches('/'))?;
 
+        // The canonical name (what `Display` writes) is built from the trimmed ID, so it can be
+        // shorter than the input. Make sure it still passes the length check above, or the
+        // name we echo back would be rejected when it is sent to us again.
+        if project_id.len() + topic_id.len() <= 2 {
+            return None;
+        }
+
         Some(TopicName {
             project_id: project_id.into(),
             topic_id: topic_id.into(),
